@@ -169,14 +169,51 @@ def s5(ctx, rep):
     # skip_rungs at the call flows from the trial's bracket
     h = P.method("HyperbandBracketManager", "on_task_report")
     from ..engine import var_from_call
-    skv = var_from_call(h, "_get_rung_system", 2)
-    rsv = var_from_call(h, "_get_rung_system", 0)
+    # which position of _get_rung_system's result is the rung system / the number of rungs to skip: the positions that
+    # carry the two results of _get_rung_system_for_bracket_id (derived from the callee, not assumed)
+    g2 = P.method("HyperbandBracketManager", "_get_rung_system")
+    r2 = [r.value for r in returns_of(g2) if isinstance(r.value, ast.Tuple)]
+    if len(r2) != 1:
+        raise AnchorError("HyperbandBracketManager._get_rung_system does not return one tuple")
+    pos = {}
+    for i, e in enumerate(r2[0].elts):
+        if isinstance(e, ast.Name):
+            for d in local_defs(g2, e.id):
+                if isinstance(d, tuple) and d[0] == "unpack" and fn_name(d[1]) == "_get_rung_system_for_bracket_id":
+                    pos[d[2]] = i
+    if set(pos) != {0, 1}:
+        raise AnchorError("_get_rung_system: results of _get_rung_system_for_bracket_id not found in the returned tuple")
+    skv = var_from_call(h, "_get_rung_system", pos[1])
+    rsv = var_from_call(h, "_get_rung_system", pos[0])
     call = [x for x in walk_shallow(h.node) if isinstance(x, ast.Call) and fn_name(x) == "on_task_report" and U(x.func.value) == rsv]
     ok = len(call) == 1 and skv is not None and U(kwarg(call[0], "skip_rungs", 2)) == skv
     ds = local_defs(h, skv) if skv else []
     ok = ok and len(ds) == 1 and isinstance(ds[0], tuple) and fn_name(ds[0][1]) == "_get_rung_system" and U(ds[0][1].args[0]) == "trial_id"
-    g2 = P.method("HyperbandBracketManager", "_get_rung_system")
     ok = ok and "self._task_info[trial_id]" in U(g2.node)
+    # every other unpacking of _get_rung_system takes the rung system from the same position
+    for m_ in P.cls("HyperbandBracketManager").methods.values():
+        for x in walk_shallow(m_.node):
+            if isinstance(x, ast.Assign) and isinstance(x.value, ast.Call) and fn_name(x.value) == "_get_rung_system" and isinstance(x.targets[0], ast.Tuple):
+                t_ = x.targets[0].elts
+                ok = ok and len(t_) == len(r2[0].elts)
+                used = [i for i, e in enumerate(t_) if isinstance(e, ast.Name) and e.id != "_"
+                        and any(isinstance(y, ast.Attribute) and isinstance(y.value, ast.Name) and y.value.id == e.id for y in walk_shallow(m_.node))]
+                ok = ok and all(i == pos[0] for i in used)
+    g3 = P.method("HyperbandBracketManager", "_get_rung_system_for_bracket_id")
+    r3 = [r.value for r in returns_of(g3) if isinstance(r.value, ast.Tuple) and len(r.value.elts) == 2]
+    ok3 = len(r3) == 1 and isinstance(r3[0].elts[0], ast.Subscript) and U(r3[0].elts[0].value) == "self._rung_systems"
+    if ok3:
+        sysv, skipv = U(r3[0].elts[0].slice), U(r3[0].elts[1])
+        arms = [s_ for s_ in walk_shallow(g3.node) if isinstance(s_, ast.If)]
+        ok3 = len(arms) == 1
+        if ok3:
+            def arm_vals(body):
+                return {U(t.targets[0]): U(t.value) for t in body if isinstance(t, ast.Assign)}
+            a_, b_ = arm_vals(arms[0].body), arm_vals(arms[0].orelse)
+            per, shared = (a_, b_) if ("truth", "self._rung_system_per_bracket", True) in atoms_of(arms[0].test, True) else (b_, a_)
+            ok3 = per.get(sysv) == "bracket_id" and per.get(skipv) == "0" and shared.get(sysv) == "0" and shared.get(skipv) == "bracket_id"
+    rep.put(ok3, "S5", "agreement", "_get_rung_system_for_bracket_id: own rung system without skipping, or the shared one skipping `bracket` rungs", g3, None, "",
+            "the pair (rung system, number of lowest rungs to skip) is not (own, 0) / (shared, bracket id)")
     rep.put(ok, "S5", "taint", "HyperbandBracketManager.on_task_report: skip_rungs comes from the reporting trial's bracket", h, None, "")
     g3 = P.method("HyperbandBracketManager", "_get_rung_system_for_bracket_id")
     cf = cfg_of(g3)
@@ -272,12 +309,13 @@ def s7(ctx, rep):
 def s8(ctx, rep, clause="S8"):
     P = ctx.P
     f = P.method("RUSHStoppingRungSystem", "_task_continues")
-    bv = vars_assigned_from(f, lambda v: isinstance(v, ast.Call) and fn_name(v) == "_task_continues" and isinstance(v.func.value, ast.Call)
-                            and fn_name(v.func.value) == "super")
-    ok = len(bv) == 1
+    from ..engine import deref
     rv = returns_of(f)
-    ok = ok and len(rv) == 1 and isinstance(rv[0].value, ast.Call) and fn_name(rv[0].value) == "task_continues" \
-        and U(kwarg(rv[0].value, "task_continues", 0)) == bv[0]
+    ok = len(rv) == 1 and isinstance(rv[0].value, ast.Call) and fn_name(rv[0].value) == "task_continues"
+    if ok:
+        v = deref(f, kwarg(rv[0].value, "task_continues", 0))
+        ok = isinstance(v, ast.Call) and fn_name(v) == "_task_continues" and isinstance(v.func, ast.Attribute) and isinstance(v.func.value, ast.Call) \
+            and fn_name(v.func.value) == "super"
     rep.put(ok, clause, "agreement", "RUSHStoppingRungSystem._task_continues feeds the base decision into the RUSH decider", f, None, "")
     d = P.method("RUSHDecider", "task_continues")
     cfg = cfg_of(d)
